@@ -1561,6 +1561,24 @@ def _(it, ci, a, d):
     return bt.get(it, loc) is not None
 
 
+@model('BTreeMap::extend', 'BTreeMap::append')
+def _(it, ci, a, d):
+    # Extend<(K, V)>: one insert per element, in iteration order
+    bt = deref(a[0]).data
+    src = a[1]
+    if type(src) is Ref:
+        src = src.get()
+    if type(src) is Opaque and src.kind == 'BTreeMap' and ci.name == 'append':
+        pairs = list(src.data.items())
+        src.data.root, src.data.length = None, 0
+    else:
+        srci = src if (type(src) is Opaque and hasattr(src.data, 'next')) else it.models.std_into_iter(it, src)
+        pairs = [tuple(x.fields) for x in iter_drain(it, srci)]
+    for k, v in pairs:
+        bt.insert(it, k, v)
+    return UNIT
+
+
 @model('BTreeMap::pop_last', 'BTreeMap::pop_first')
 def _(it, ci, a, d):
     bt = deref(a[0]).data
@@ -2129,6 +2147,24 @@ def _(it, ci, a, d):
     if any(is_sym(x) for x in items):
         raise Inconclusive('min of symbolic')
     return opt_of(min(items) if items else None)
+
+
+@model('str::parse')
+def _(it, ci, a, d):
+    # str::parse::<T>() = <T as FromStr>::from_str(s): integers are parsed here, repository types through their own impl (MIR)
+    m = re.search(r'parse::<(.*)>$', ci.path.strip())
+    ty = norm_type(m.group(1)) if m else None
+    from interp import INTS
+    if ty in INTS:
+        t = sv(a[0])
+        try:
+            return ok(int(t, 10)) if re.fullmatch(r'[+-]?[0-9]+', t) else err(Opaque('ParseIntError', t))
+        except ValueError:
+            return err(Opaque('ParseIntError', t))
+    okk, r = it.models.call_mir(it, 'from_str', [a[0]], self_base=ty, trait='FromStr')
+    if okk:
+        return r
+    raise Inconclusive('str::parse::<%s>' % ty)
 
 
 @model('bool::then_some')
